@@ -123,10 +123,11 @@ func endsInBareGenerate(files map[string]string) bool {
 // time and allocation quadratic in the number of tokens.
 const kGenQuadratic = "generate-quadratic"
 
-const maxGenerateTokens = 400
+const maxGenerateProduct = 1000000
 
-// longGenerate delimits the class: more than 400 tokens follow a $GENERATE in the same file (an
-// unbalanced parenthesis or quote can make the rest of the file one logical line).
+// longGenerate delimits the class: behind a $GENERATE the same file has so much text that
+// (tokens) x (octets) exceeds 10^6 (an unbalanced parenthesis or quote can make the rest of the
+// file one logical line; the concatenation copies the text so far once per token).
 func longGenerate(files map[string]string) bool {
 	for _, raw := range files {
 		if cutLongGenerate(raw) != raw {
@@ -136,7 +137,7 @@ func longGenerate(files map[string]string) bool {
 	return false
 }
 
-// cutLongGenerate truncates the text behind the 400th token after the first $GENERATE.
+// cutLongGenerate truncates the text where that product is reached.
 func cutLongGenerate(raw string) string {
 	g := strings.Index(asciiUpper(raw), "$GENERATE")
 	if g < 0 {
@@ -151,7 +152,7 @@ func cutLongGenerate(raw string) string {
 		sp := raw[i] == ' ' || raw[i] == '\t' || raw[i] == '\n'
 		if !sp && !in {
 			n++
-			if n > maxGenerateTokens {
+			if n*(i-g) > maxGenerateProduct {
 				return raw[:i]
 			}
 		}
